@@ -929,10 +929,13 @@ def build(repo):
                     continue
                 seen.add(sig)
                 if name in NOT_ENTRY or doc_not_safe:
-                    excluded.append((sig, NOT_ENTRY.get(name, "documented 'not thread-safe'")))
+                    excluded.append((sig, NOT_ENTRY.get(name, "documented 'not thread-safe'"), (ti2, df, name)))
                     continue
                 tree = b.inline(tus[ti2], "<entry>", df, name)
                 eps.append((sig, name, tree))
+    # the excluded entry points are translated as well (after the others, so that their helpers come last): the obligation
+    # `excluded_unsafe` shows that each of them really touches protected members without the lock, i.e. the exclusion is needed
+    excluded = [(sig, why, b.inline(tus[ti2], "<entry>", df, name)) for (sig, why, (ti2, df, name)) in excluded]
     return b, eps, excluded
 
 
@@ -997,7 +1000,10 @@ def gen_skeleton(repo):
     out.append("  [\n" + ";\n".join(items) + "\n  ].")
     out.append("")
     out.append("Definition excluded_entry_points : list (string * string) :=")
-    out.append("  [" + ";\n   ".join("(%s, %s)" % (coq_str(s), coq_str(r)) for s, r in sorted(excluded)) + "].")
+    out.append("  [" + ";\n   ".join("(%s, %s)" % (coq_str(s), coq_str(r)) for s, r, _t in sorted(excluded, key=lambda x: x[0])) + "].")
+    out.append("")
+    out.append("Definition excluded_entry_skeletons : list (string * sk) :=")
+    out.append("  [\n" + ";\n".join("    (%s,\n      %s)" % (coq_str(s), emit_tree(t, names, 6)) for s, r, t in sorted(excluded, key=lambda x: x[0])) + "\n  ].")
     out.append("")
     li = lock_impl(b)
     out.append("(* what LockGuard / Lock really call in this build configuration (osutils.h / osutils_p.h) *)")
@@ -1016,11 +1022,15 @@ def gen_skeleton(repo):
     out.append("Lemma lock_impl_ok : check_lock_impl lock_impl = [].")
     out.append("Proof. vm_compute. reflexivity. Qed.")
     out.append("")
+    out.append("(* the entry points excluded by the documented contract (reset) really break the discipline: the exclusion is necessary *)")
+    out.append("Lemma excluded_unsafe : excluded_unsafe_diag entry_points excluded_entry_skeletons = [].")
+    out.append("Proof. vm_compute. reflexivity. Qed.")
+    out.append("")
     out.append("(* the canonical execution of each required entry point takes the lock and touches protected members under it *)")
     out.append("Lemma skeleton_nonvacuous : nonvacuous_diag entry_points = [].")
     out.append("Proof. vm_compute. reflexivity. Qed.")
     out.append("")
-    return "\n".join(out).replace(repo.rstrip("/") + "/", ""), {"entry_points": [s for s, _, _ in sorted(eps)], "excluded": sorted(excluded), "events": stats,
+    return "\n".join(out).replace(repo.rstrip("/") + "/", ""), {"entry_points": [s for s, _, _ in sorted(eps)], "excluded": sorted((s_, r_) for s_, r_, _t in excluded), "events": stats,
                             "inlined_functions": len(b.order), "unknown_ast_kinds": b.unknown_ctx, "untranslated_nodes": b.unvisited, "local_object_accesses_skipped": b.local_skipped,
                             "implicit_destructors_inlined": b.dtor_inlined, "owned_context_accesses_skipped": b.owned_skipped,
                             "recursive_calls_folded": b.recursive_calls,
